@@ -163,9 +163,9 @@ var l2CorpusPG = []corpusStmt{
 	{":many", "SELECT authors.id FROM authors JOIN books USING (id) JOIN venues USING (id)", nil, nil, nil},
 	{":one", "SELECT * FROM authors JOIN books USING (id) WHERE authors.name = $1", nil, nil, nil},
 	// LIMIT / OFFSET placeholders of a sub-select that sits inside an expression, a SET value, a function argument
-	{":many", "SELECT id FROM authors WHERE age < (SELECT age FROM authors ORDER BY id LIMIT 1 OFFSET $1)", nil, nil, nil},
-	{":many", "SELECT id FROM authors WHERE name = ANY(ARRAY(SELECT name FROM authors ORDER BY id LIMIT $1))", nil, nil, nil},
-	{":exec", "UPDATE authors SET age = (SELECT age FROM authors ORDER BY id LIMIT 1 OFFSET $2) WHERE id = $1", nil, nil, nil},
+	{":many", "SELECT name FROM authors WHERE age < (SELECT \"order\" FROM books ORDER BY price LIMIT 1 OFFSET $1)", nil, nil, nil},
+	{":many", "SELECT name FROM authors WHERE bio = ANY(ARRAY(SELECT title FROM books ORDER BY price LIMIT $1))", nil, nil, nil},
+	{":exec", "UPDATE authors SET age = (SELECT \"order\" FROM books ORDER BY price LIMIT 1 OFFSET $2) WHERE name = $1", nil, nil, nil},
 	{":many", "SELECT id, (SELECT title FROM books ORDER BY id LIMIT $1) AS first_title FROM authors", nil, nil, nil},
 	{":many", "SELECT id FROM authors WHERE id IN (SELECT author_id FROM books ORDER BY id LIMIT $1 OFFSET $2)", nil, nil, nil},
 	// two relations that share a bare name across schemas, one of them without an alias
